@@ -580,3 +580,40 @@ Definition first_bits_misfit (sizes : list (string * N * N)) (t : mesgtable) : o
 Definition first_ptype_diff (ts : list ptype) (dump : list (N * string * N)) :=
   first_list_diff (fun a b : N * string * option N => (fst (fst a) =? fst (fst b)) && String.eqb (snd (fst a)) (snd (fst b)) && opt_N_eqb (snd a) (snd b))
     (expected_ptypes ts) (map (fun p => (fst (fst p), snd (fst p), Some (snd p))) dump).
+
+(* boolean equality of whole tables (the Inst obligations are stated with these so that a failing one fails fast) *)
+Definition mesg_entry_eqb (a b : N * list fieldbase) : bool := (fst a =? fst b) && list_eqb fieldbase_eqb (snd a) (snd b).
+Definition opt_table_eqb (a : option mesgtable) (b : mesgtable) : bool :=
+  match a with Some t => list_eqb mesg_entry_eqb t b | None => false end.
+Definition names_eqb (a b : list nameentry) : bool := list_eqb nameentry_eqb a b.
+
+(* ------------------------------------------------------------------ the translated typedef tables against the running code
+   gen/TypedefRun.v: for every generated type, for every element c of ListX(): (value of c, c.String(), XFromString(c.String())) *)
+Definition expected_run (td : typedef) : list (option N * option string * option N) :=
+  let sv := str_values td in let fv := from_values td in let d := const_value td (td_from_default td) in
+  map (fun c => match const_value td c with
+                | Some v => let s := to_string_in sv v in
+                            (Some v, s, match s with Some s' => from_string_in fv d s' | None => None end)
+                | None => (None, None, None)
+                end) (td_list td).
+Definition run_eqb (a : option N * option string * option N) (b : N * string * N) : bool :=
+  opt_N_eqb (fst (fst a)) (Some (fst (fst b)))
+  && match snd (fst a) with Some s => String.eqb s (snd (fst b)) | None => false end
+  && opt_N_eqb (snd a) (Some (snd b)).
+Definition typedef_run_entry_ok (td : typedef) (r : string * list (N * string * N)) : bool :=
+  String.eqb (td_name td) (fst r) && list_eqb run_eqb (expected_run td) (snd r).
+Definition typedef_run_agrees_b (tds : list typedef) (run : list (string * list (N * string * N))) : bool :=
+  list_eqb typedef_run_entry_ok tds run.
+Fixpoint first_run_mismatch (tds : list typedef) (run : list (string * list (N * string * N)))
+  : option (string * string * option (option (option N * option string * option N) * option (option N * option string * option N))) :=
+  match tds, run with
+  | [], [] => None
+  | td :: tr, r :: rr => if typedef_run_entry_ok td r then first_run_mismatch tr rr
+                         else Some (td_name td, fst r,
+                                    first_list_diff (fun a b => match a, b with
+                                                                | (Some v, Some s, Some w), (Some v', Some s', Some w') => (v =? v') && String.eqb s s' && (w =? w')
+                                                                | _, _ => false end)
+                                      (expected_run td) (map (fun x => (Some (fst (fst x)), Some (snd (fst x)), Some (snd x))) (snd r)))
+  | td :: _, [] => Some (td_name td, EmptyString, None)
+  | [], r :: _ => Some (EmptyString, fst r, None)
+  end.
